@@ -134,6 +134,17 @@ def gen_cases(rng, tier):
                     ops.append(["q_parse", "-", f"2.5 {u}", "-", MODE])
                     ops.append(["q_parse", ctx.units[u]["cls"], f"2.5 {u}", "-", MODE])
                     ops.append(["q_str", f"F:5/2@{u}"])
+        # text with a symbol plus a DIFFERENT explicit unit that the quantity
+        # cannot be converted to (type without reference unit, no converter)
+        refless_cls = {}
+        for u in ctx.units:
+            if ctx.units[u]["scale"] is None and ctx.kind == "user":
+                refless_cls.setdefault(ctx.units[u]["cls"], []).append(u)
+        for cname, us in refless_cls.items():
+            if len(us) >= 2:
+                a, b = rng.sample(us, 2)
+                ops.append(["q_parse", rng.choice(["-", cname]), f"5 {a}", b, MODE])
+                ops.append(["q_parse", rng.choice(["-", cname]), f"5 {a}", a, MODE])
         # floats and ints through q_mk (exact binary value)
         for f in [0.1, 1e-300, 5e-324, 1.7976931348623157e308, 123456.789, -0.0, 2.5]:
             u = rng.choice(plain)
@@ -225,6 +236,8 @@ def oracle(case, impl):
                 target = sym if uarg == "-" else uarg
                 if ctx.units[sym]["cls"] != ctx.units[target]["cls"]:
                     exp = "err IncompatibleUnitsError"
+                elif target != sym and (ctx.units[sym]["scale"] is None or ctx.units[target]["scale"] is None):
+                    exp = "err UnitConversionError"
                 elif cls != "-" and cls != ctx.units[sym]["cls"] and target == sym:
                     exp = "err QuantityError"
                 else:
